@@ -4,29 +4,37 @@
 (* carry their arguments, so validation is linear in the trace length.          *)
 EXTENDS PacketScanObs, Json, TLC, IOUtils
 Trace == ndJsonDeserialize(IOEnv.VERIF_TRACE)
-VARIABLE l
-tvars == <<ovars, l>>
-TInit == OInitRun(0, FALSE, 1) /\ l = 1
+VARIABLES l,
+          ex     \* this run promises completeness at return (exit delay >= default, error log keeps up, no Ctrl-C)
+tvars == <<ovars, l, ex>>
+TInit == OInitRun(0, FALSE, 1) /\ l = 1 /\ ex = FALSE
 Ev == Trace[l]
 Is(e) == l <= Len(Trace) /\ Ev.ev = e /\ l' = l + 1
 \* a new run may start only when the previous one ended cleanly: error stream observed closed
 TReset == /\ Is("Reset") /\ (errClosed \/ l = 1)
           /\ total' = Ev.n /\ nw' = Ev.w /\ gen' = 0 /\ genErr' = {} /\ fillBusy' = {} /\ fillOk' = {} /\ fillErr' = {}
           /\ wBusy' = 0 /\ wOk' = {} /\ wErr' = {} /\ pending' = {} /\ seen' = {}
-          /\ done' = FALSE /\ errClosed' = FALSE /\ cancelled' = FALSE /\ limited' = Ev.limited /\ charged' = 0
-TNext == \/ TReset
-         \/ Is("Gen") /\ Gen(Ev.id, Ev.err)
-         \/ Is("FillBegin") /\ FillBegin(Ev.id)
-         \/ Is("FillEnd") /\ FillEnd(Ev.id, Ev.ok)
-         \/ Is("Take") /\ Take
-         \/ Is("WriteBegin") /\ WriteBegin(Ev.id) /\ ~Ev.doneClosed     \* done must not be closed when a write starts
-         \/ Is("WriteEnd") /\ WriteEnd(Ev.id, Ev.ok) /\ Ev.same          \* bytes = what the filler built, unchanged during the call
-         \/ Is("ErrSeen") /\ ErrSeen(Ev.kind, Ev.id)
-         \/ Is("RcvFail") /\ RcvFail(Ev.id)
-         \/ Is("DoneSeen") /\ DoneSeen
-         \/ Is("ErrClosedSeen") /\ ErrClosedSeen
-         \/ Is("Cancel") /\ Cancel
-         \/ Is("Quiesced") /\ Quiesced
+          /\ done' = FALSE /\ errClosed' = FALSE /\ cancelled' = FALSE /\ limited' = Ev.limited /\ charged' = 0 /\ ex' = Ev.exact
+\* startScanEngine returned: its error drain has seen the end of the error stream; unless it was cancelled from
+\* outside, completion had been signalled and (under the proviso) every failure has been logged
+Returned == /\ Is("Returned") /\ ~errClosed
+            /\ (cancelled \/ (done /\ wBusy = 0 /\ (ex => seen = pending)))      \* after Ctrl-C a leaked sender may still finish one write
+            /\ errClosed' = TRUE
+            /\ UNCHANGED <<total, nw, gen, genErr, fillBusy, fillOk, fillErr, wBusy, wOk, wErr, pending, seen, done, cancelled, limited, charged>>
+TNext == \/ (TReset)
+         \/ (Returned /\ UNCHANGED ex)
+         \/ UNCHANGED ex /\ Is("Gen") /\ Gen(Ev.id, Ev.err)
+         \/ UNCHANGED ex /\ Is("FillBegin") /\ FillBegin(Ev.id)
+         \/ UNCHANGED ex /\ Is("FillEnd") /\ FillEnd(Ev.id, Ev.ok)
+         \/ UNCHANGED ex /\ Is("Take") /\ Take
+         \/ UNCHANGED ex /\ Is("WriteBegin") /\ WriteBegin(Ev.id) /\ ~Ev.doneClosed     \* done must not be closed when a write starts
+         \/ UNCHANGED ex /\ Is("WriteEnd") /\ WriteEnd(Ev.id, Ev.ok) /\ Ev.same          \* bytes = what the filler built, unchanged during the call
+         \/ UNCHANGED ex /\ Is("ErrSeen") /\ ErrSeen(Ev.kind, Ev.id)
+         \/ UNCHANGED ex /\ Is("RcvFail") /\ RcvFail(Ev.id)
+         \/ UNCHANGED ex /\ Is("DoneSeen") /\ DoneSeen
+         \/ UNCHANGED ex /\ Is("ErrClosedSeen") /\ ErrClosedSeen
+         \/ UNCHANGED ex /\ Is("Cancel") /\ Cancel
+         \/ UNCHANGED ex /\ Is("Quiesced") /\ Quiesced
 TSpec == TInit /\ [][TNext]_tvars
 HighWater == TLCSet(1, IF l > TLCGet(1) THEN l ELSE TLCGet(1))
 ASSUME TLCSet(1, 0)
